@@ -13,7 +13,7 @@ EXTRA = {  # patches that are (also) expected to be caught by other checks
 }
 # not a violation under the property as we read it (DESIGN.md 11.8): must stay silent
 EXPECT_SILENT = {("C07-d", "C07"), ("C14-g", "C14")}
-# wave 5 changes that no check decides (DESIGN.md 11.12): listed so that the matrix shows them; not counted as expected detections
+# a wave 5 change outside every property's quantifier (DESIGN.md 11.12): listed so that the matrix shows them; not counted as expected detections
 KNOWN_MISSED = {("C10-j", "C10")}
 only = sys.argv[sys.argv.index("--only") + 1] if "--only" in sys.argv else ""
 rows = []
@@ -35,5 +35,5 @@ with open(f"{HOME}/DETECTION.md", "w") as f:
     for r in rows:
         f.write("| %s | %s | %s | %s | %s |\n" % r)
     missed = [r for r in rows if (r[2] != 1) != ((r[0], r[1]) in EXPECT_SILENT) and (r[0], r[1]) not in KNOWN_MISSED]
-    f.write("\n%d of %d (change, check) pairs as expected (C07-d and C14-g are expected to stay silent: undefined rounding ties, DESIGN.md 11.8 / 11.10;; one wave-5 change is not decided by any check: C10-j, DESIGN.md 11.12); unexpected: %s\n" % (len(rows) - len(missed), len(rows), [(r[0], r[1], r[2]) for r in missed]))
+    f.write("\n%d of %d (change, check) pairs as expected (C07-d and C14-g are expected to stay silent: undefined rounding ties, DESIGN.md 11.8 / 11.10;; one wave-5 change is not reported by any check: C10-j, outside every quantifier, DESIGN.md 11.12); unexpected: %s\n" % (len(rows) - len(missed), len(rows), [(r[0], r[1], r[2]) for r in missed]))
 print("unexpected:", [(r[0], r[1], r[2]) for r in rows if (r[2] != 1) != ((r[0], r[1]) in EXPECT_SILENT) and (r[0], r[1]) not in KNOWN_MISSED])
